@@ -2539,7 +2539,7 @@ impl CanonicalizeContext {
 			if i_base == i {
 				return i + 1;		// nothing around it can serve as a base -- leave the script (with its empty base) as it is
 			}
-			for &child in &mrow_children[i..std::cmp::max(i, i_base)] {
+			for &child in if i_base > i {&mrow_children[i..i_base]} else {&mrow_children[0..0]} {	// ('i' may be stale when the base was grouped)
 				// everything in front of the base has to be a prescript (a script with an empty base); anything else would be dropped below
 				let child = as_element(child);
 				let child_name = name(&child);
